@@ -89,10 +89,10 @@ DEFAULT_WEIGHTS = {
   'add_records': 16, 'update_records': 14, 'remove_records': 6, 'replace_data': 0, 'upsert': 0,
   'add_table': 3, 'add_empty_table': 0.5, 'add_raw_table': 0.3, 'remove_table': 1, 'rename_table': 1.5,
   'duplicate_table': 0.7,
-  'add_data_column': 4, 'add_formula_column': 6, 'add_trigger_column': 0, 'add_ref_column': 3,
+  'add_data_column': 4, 'add_formula_column': 6, 'add_trigger_column': 1.5, 'add_ref_column': 3,
   'add_visible_column': 0.5, 'add_hidden_column': 0.3,
   'remove_column': 2.5, 'rename_column': 3, 'modify_type': 3.5, 'modify_formula': 3,
-  'to_formula': 1, 'to_data': 1, 'modify_label': 1, 'modify_widget': 0.7, 'modify_recalc': 0,
+  'to_formula': 1, 'to_data': 1, 'modify_label': 1, 'modify_widget': 0.7, 'modify_recalc': 0.7,
   'meta_update_col': 1.5, 'meta_update_table': 0.5,
   'set_display_formula': 1, 'add_empty_rule': 0.7, 'add_reverse': 1.2, 'copy_from_column': 0.5,
   'rename_choices': 0.5, 'convert_from_column': 0.3, 'set_visible_col': 0.8,
@@ -112,7 +112,7 @@ class Gen(object):
       self.w.update(weights)
     # flags: max_tables, max_rows, wrong (share of wrong-typed values), formula_kinds, no_stringify
     self.flags = {'max_tables': 5, 'max_cols': 9, 'max_rows': 12, 'wrong': 0.1, 'bundle_multi': 0.3,
-                  'formula_off': ('trigger_self',), 'types': TYPES, 'explicit_ids': 0.1, 'neg_ids': 0.1,
+                  'formula_off': (), 'types': TYPES, 'explicit_ids': 0.1, 'neg_ids': 0.1,
                   # triggers of open findings (known_findings.jsonl) are off unless a check turns them on
                   'invalid_off': ('bad_type', 'short_bulk')}
     if flags:
@@ -186,10 +186,16 @@ class Gen(object):
     r = self.r
     n = 1 if r.random() > self.flags['bundle_multi'] else r.randint(2, 4)
     out = []
+    # Half of the multi-action bundles concentrate on one table (several edits of the same cells
+    # and columns within one bundle).
+    self.focus = None
+    if n > 1 and m.user_tables and r.random() < 0.5:
+      self.focus = r.choice(m.user_tables)['id']
     for _ in range(n):
       a = self.action(m)
       if a is not None:
         out.append(a)
+    self.focus = None
     return out or [['Calculate']]
 
   def action(self, m):
@@ -207,6 +213,11 @@ class Gen(object):
   def _table(self, m, summary_ok=False, need_rows=False):
     r = self.r
     pool = m.user_tables
+    focus = getattr(self, 'focus', None)
+    if focus and r.random() < 0.7:
+      ft = m.tables.get(focus)
+      if ft and (summary_ok or not ft['summary']) and (ft['rows'] or not need_rows):
+        return ft
     if summary_ok and m.summary_tables and r.random() < 0.25:
       pool = m.summary_tables
     if need_rows:
@@ -425,7 +436,10 @@ class Gen(object):
     t, c = self._col(m, lambda c: not c['isFormula'] and not c['reverseCol'])
     if c is None:
       return None
-    return ['ModifyColumn', t['id'], c['id'], {'isFormula': True, 'formula': self.formula(m, t)}]
+    info = {'isFormula': True, 'formula': self.formula(m, t)}
+    if self.r.random() < 0.4:
+      info['type'] = self.r.choice(['Any', 'Int', 'Numeric', 'Text'])
+    return ['ModifyColumn', t['id'], c['id'], info]
 
   def k_to_data(self, m):
     t, c = self._col(m, lambda c: c['isFormula'])
@@ -747,4 +761,27 @@ class Gen(object):
       dc = datacols(t)
       if dc:
         opts.append(['ApplyDocActions', [['UpdateRecord', t['id'], t['rows'][0], {dc[0]['id']: self.value(dc[0]['type'], m, 0), 'Nope': 1}]]])
+    # malformed raw doc actions (partial application inside a doc action), after a valid one
+    dc = datacols(t)
+    newid = max(t['rows'] or [0]) + 1
+    if dc and not t['summary']:
+      c0 = dc[0]
+      v = self.value(c0['type'], m, 0)
+      valid_first = r.choice([[], [['UpdateRecord', t['id'], t['rows'][0], {c0['id']: v}]] if t['rows'] else []])
+      bad = [
+        ['AddRecord', t['id'], newid, {c0['id']: v, 'Nope': 1}],
+        ['BulkAddRecord', t['id'], [newid, newid + 1], {c0['id']: [v, v], 'Nope': [1, 2]}],
+        ['ReplaceTableData', t['id'], [1], {c0['id']: [v], 'Nope': [1]}],
+        ['RenameColumn', t['id'], c0['id'], 'manualSort'],
+        ['ModifyColumn', t['id'], c0['id'], {'type': 'Bogus'}] if 'bad_type' not in self.flags.get('invalid_off', ()) else ['RemoveColumn', t['id'], 'Nope'],
+        ['RemoveColumn', t['id'], 'Nope'],
+        ['UpdateRecord', t['id'], 99999, {c0['id']: v}],
+        ['RenameTable', t['id'], m.user_tables[0]['id'] if m.user_tables[0]['id'] != t['id'] else '_grist_Tables'],
+        ['RenameTable', t['id'], 'class'],
+        ['AddTable', 'BadT', [{'id': 'A', 'type': 'Reference', 'isFormula': False, 'formula': ''}]],
+        ['AddColumn', t['id'], 'BadC', {'type': 'Ref:', 'isFormula': False, 'formula': ''}],
+      ]
+      for b in bad:
+        opts.append(['ApplyDocActions', valid_first + [b]])
+    opts.append(['AddTable', self.name('Bad') or 'Bad', [{'id': 'A', 'type': r.choice(['Reference', 'Ref:', 'Foo', '']), 'isFormula': False}]])
     return r.choice(opts)
